@@ -60,6 +60,26 @@ CHECKS = {
         "thorough copy grid is 0..96 x 32x32 (the 0..4096 sweep of the statement is not done through TLC).",
    technique="TLA+ sequence specification checked by TLC; state-graph replay into the C++ containers; TLC trace validation; TLC batch oracle for Memory::Copy",
    design="6 (C14)"),
+ "C12": dict(
+   text="Documents are TLA+ values (QValue: undefined/null/bools/closed-domain numbers/strings/arrays with undefined holes/objects as "
+        "ordered maps); writes auto-vivify along a path (=, += value, += array, Merge copy/move, Remove, RemoveIndex, Reset), Compress, "
+        "deep copy and move between two roots, non-vivifying reads and the numeric/boolean coercions are explicit operators. TLC "
+        "explores the specification exhaustively under a weight bound (invariants: well-formed, no duplicate keys; action properties: "
+        "copies independent, moved-from Undefined); every (state, action) edge of that graph is replayed into two real Value<char> "
+        "roots under ASan with the overloads rotated, and random histories (3-step paths, all literal kinds, typed getters) recorded "
+        "from the real code are validated line by line by TraceQValue.",
+   note="bounded exhaustive (weight <= 3 quick / 4 thorough, depth <= 2) + sampled histories; positional access into objects with "
+        "removed entries and key lookups in arrays are not generated (outside the contract); Value<char> only.",
+   technique="TLA+ document specification checked by TLC; state-graph replay into Value; TLC trace validation of recorded histories",
+   design="6 (C12), appendix E.3"),
+ "C18": dict(
+   text="GroupBy is an explicit TLA+ operator (QValue.GroupBy: names = distinct textual key values in first-appearance order, items = "
+        "the input objects in order minus the key) whose partition property TLC checks on every generated array. Value::GroupBy is "
+        "run on every 1- and 2-object array over group value x key position x key-value kind x with/without a removed member and on "
+        "random arrays of 1..5 objects; each (input, result, source-unchanged) event is evaluated by TLC against the operator.",
+   note="TLC as batch oracle over recorded events; real-valued grouping keys are not generated; <loop group=> is bound by the template checks.",
+   technique="TLA+ GroupBy operator + partition invariant; TLC batch oracle over recorded Value::GroupBy events",
+   design="6 (C18)"),
 }
 PENDING = "not yet claimed in this revision: its specification and conformance harness are still being built (DESIGN.md section 6 describes the plan)"
 m = {
@@ -74,7 +94,7 @@ m = {
  },
  "engines": [
    {"name": "tlc-runner", "path": "lib/vf.py", "serves_properties": sorted(CHECKS), "kind_free_text": "runs TLC on spec/*.tla (exhaustive, simulation, graph dump, trace validation, batch oracle), builds harnesses from /repo's working tree, filters known findings, writes evidence"},
-   {"name": "graph-walker", "path": "harness/graph.hpp", "serves_properties": ["C13", "C14"], "kind_free_text": "spec -> code: replays every (state, action) edge of a TLC state graph into the real object and compares projections"},
+   {"name": "graph-walker", "path": "harness/graph.hpp", "serves_properties": ["C12", "C13", "C14"], "kind_free_text": "spec -> code: replays every (state, action) edge of a TLC state graph into the real object and compares projections"},
  ],
  "checks": [],
  "not_applicable": [],
